@@ -11,6 +11,7 @@ EV = "berty.tech/go-orbit-db/events"
 
 PSC = "berty.tech/go-orbit-db/pubsub/pubsubcoreapi"
 OOO = "berty.tech/go-orbit-db/pubsub/oneonone"
+RAW = "berty.tech/go-orbit-db/pubsub/pubsubraw"
 
 ACI = "berty.tech/go-orbit-db/accesscontroller/ipfs"
 ACS = "berty.tech/go-orbit-db/accesscontroller/simple"
@@ -315,6 +316,15 @@ CHECKS = {
             "params": {"quick": {"L": 3, "B": 11}, "thorough": {"L": 6, "B": 12}},
             "flags": {"alloc-bound": 16},
             "covers": {"VerifC20FrameRoundTrip": ["received"], "VerifC12RawFrame": ["handled"]},
+        }, {
+            "pkg": RAW, "funcs": ["VerifC20RawPeers", "VerifC20RawMessages", "VerifC20RawTopics"],
+            "params": {"quick": {"E": 3, "P": 2, "M": 3}, "thorough": {"E": 5, "P": 3, "M": 5}},
+            "max_paths": {"quick": 60000, "thorough": 400000},
+            "covers": {"VerifC20RawPeers": ["watched"], "VerifC20RawMessages": ["drained"], "VerifC20RawTopics": ["subscribed"]},
+            # libp2p-pubsub's Topic / Subscription / TopicEventHandler are concrete types: under the
+            # interpreter their methods are replaced by scripted stand-ins; natively there is nothing to
+            # script, so paths of this group are neither validated nor replayed natively
+            "validate": False, "native_replay": False,
         }],
         "assumptions": [
             "membership: every sequence of S duplicate-free snapshots over P peers whose ids are symbolic pairwise-distinct strings, returned by a scripted coreiface PubSub().Peers()",
@@ -322,8 +332,9 @@ CHECKS = {
             "pairwise channel registration: two overlapping Connect calls for the same peer under every schedule with at most P preemptions (the subscribe call is a preemption point); timers run on virtual time (they fire only when nothing else can run)",
             "channel names: peer ids are symbolic strings of length L without '/'; sort.Slice is a stable insertion sort over the real less closure",
             "frames: payloads of 0..L symbolic bytes through the real Send -> varint -> handleNewPeer path over a byte-pipe stream stub; plus ANY raw stream of 0..B bytes",
+            "pubsubraw adapter: the real NewPubSub / TopicSubscribe / WatchPeers / WatchMessages / Publish / Peers over scripted stand-ins for libp2p-pubsub's concrete Topic, TopicEventHandler and Subscription (methods replaced by name; NextPeerEvent / Next return the next scripted item or block until the context ends): every sequence of up to E join/leave events over P peers, every sequence of up to M messages each from the local peer or a remote one with 0..2 symbolic bytes; a violation in this group is reported on the interpreter's execution alone (confirmation: interpreter-only)",
         ],
-        "outside": ["snapshots containing duplicates (assumed sets, as libp2p returns)", "third-party senders on a pairwise topic", "real stream I/O errors", "pubsubraw adapter (libp2p-pubsub internals)", "payloads longer than the bound / up to the 4 MiB limit (the limit comparison itself is covered symbolically by VerifC12RawFrame)"],
+        "outside": ["snapshots containing duplicates (assumed sets, as libp2p returns)", "third-party senders on a pairwise topic", "real stream I/O errors", "libp2p-pubsub internals behind the pubsubraw adapter (gossip, validation, real subscription buffers)", "payloads longer than the bound / up to the 4 MiB limit (the limit comparison itself is covered symbolically by VerifC12RawFrame)"],
     },
     "C12": {
         "groups": [{
